@@ -253,6 +253,23 @@ theorem invT_of_rotation (F : M3 K) (hR : M3.mul F.transpose F = M3.one) (hF : M
   (`IsBest mag cosMax ps q k`: `ps[k]` has a cosine with `q` above `cos θ_max`, strictly above that of every earlier
   `p`, not below that of any later one — defined in `Proofs/C17_Lemmas.lean` with `bestP_of_isBest`) -/
 
+/-- the index form of `IsBest`: `ps[k]` is inside `θ_max` and every other reference vector makes a strictly larger
+    angle with `q`. -/
+theorem isBest_of_strict (mag : V3 K → K) (cosMax : K) (ps : List (V3 K)) (q : V3 K) (k : Nat) (hk : k < ps.length)
+    (hc : cosMax < cosTheta mag q ps[k])
+    (h : ∀ k' (hk' : k' < ps.length), k' ≠ k → cosTheta mag q ps[k'] < cosTheta mag q ps[k]) :
+    IsBest mag cosMax ps q k := by
+  refine ⟨ps.take k, ps[k], ps.drop (k + 1), ?_, ?_, hc, ?_, ?_⟩
+  · rw [List.getElem_cons_drop, List.take_append_drop]
+  · simp [List.length_take]; omega
+  · intro p hp
+    obtain ⟨i, hi, rfl⟩ := List.mem_take_iff_getElem.mp hp
+    have hi' : i < k := by omega
+    exact h i (by omega) (by omega)
+  · intro p hp
+    obtain ⟨i, hi, rfl⟩ := List.mem_drop_iff_getElem.mp hp
+    exact le_of_lt (h (k + 1 + i) (by omega) (by omega))
+
 /-- **matchPQ_pairing_partial.**  Hypothesis (not derived from the smallness of the deformation — see PARTIAL): the
     `j`-th current neighbour vector has the best match `ps[ks[j]]` within `θ_max` and distinct `q` have distinct
     matches.  Then `qp_pairs = ks`, nothing is discarded, and the reduced matrices hold the rows
